@@ -219,6 +219,10 @@ def i_convert(ex, fr, ins):
         return norm(int(x), tw, ts)
     if fk == "float" and tk == "float":
         return x
+    if fk == "string" and tk == "slice" and isinstance(x, tuple) and x and x[0] == "symstr":
+        cells = list(x[1])
+        ptr = ex.alloc("uint8", label="[]byte(string)", cells=cells, count=len(cells))
+        return Slice(ptr, len(cells), len(cells), p.under(tt)["elem"])
     if fk == "string" and tk == "slice":
         bs = x.encode() if isinstance(x, str) else bytes(x)
         ptr = ex.alloc("uint8", label="[]byte(string)", cells=list(bs), count=len(bs)) if len(bs) else None
